@@ -123,6 +123,37 @@ fn io_cases(cases: &str, out: &str) {
                 let filled = buf.iter().take_while(|b| **b != 0).count();
                 json!({"res": if r.is_ok() { "ok" } else { err_class(r.as_ref().err().unwrap()) }, "filled": filled, "calls": s.calls})
             }
+            "slice_read" => {
+                // Read for &[u8]: the script holds the buffer sizes asked for, one read each
+                let data: Vec<u8> = (1..=n as u8).collect();
+                let mut src: &[u8] = &data[..];
+                let mut got = vec![];
+                let mut bytes: Vec<u8> = vec![];
+                for ask in c["script"].as_array().unwrap() {
+                    let mut buf = vec![0u8; ask.as_u64().unwrap() as usize];
+                    match std::panic::catch_unwind(std::panic::AssertUnwindSafe(|| Read::read(&mut src, &mut buf))) {
+                        Ok(Ok(k)) => { got.push(json!(k)); bytes.extend_from_slice(&buf[..k]); }
+                        Ok(Err(e)) => got.push(json!(err_class(&e))),
+                        Err(_) => got.push(json!("panic")),
+                    }
+                }
+                json!({"got": got, "prefix": data.starts_with(&bytes)})
+            }
+            "slice_write" => {
+                // Write for &mut [u8]: the script holds the lengths offered, one write each
+                let mut room = vec![0u8; n];
+                let mut dst: &mut [u8] = &mut room[..];
+                let mut got = vec![];
+                for off in c["script"].as_array().unwrap() {
+                    let data = vec![7u8; off.as_u64().unwrap() as usize];
+                    match std::panic::catch_unwind(std::panic::AssertUnwindSafe(|| Write::write(&mut dst, &data))) {
+                        Ok(Ok(k)) => got.push(json!(k)),
+                        Ok(Err(e)) => got.push(json!(err_class(&e))),
+                        Err(_) => got.push(json!("panic")),
+                    }
+                }
+                json!({"got": got, "prefix": true})
+            }
             "take_read" => {
                 let limit = c["limit"].as_u64().unwrap();
                 let mut t = s.take(limit);
